@@ -875,6 +875,12 @@ pub fn execute_update_mint_price(
     }
 
     config.mint_price = coin(price, config.mint_price.denom);
+    // a standing discount price can't be greater than the new mint price
+    if let Some(discount_price) = &config.extension.discount_price {
+        if discount_price.amount.u128() > price {
+            config.extension.discount_price = None;
+        }
+    }
     CONFIG.save(deps.storage, &config)?;
     Ok(Response::new()
         .add_attribute("action", "update_mint_price")
